@@ -1,5 +1,5 @@
 """Regenerates the kill table of DESIGN.md (section 13) from seeded/*/meta.json and a fresh cross matrix:
-   /venv/bin/python -m sa.killtable            (runs every check on every seeded variant on scratch copies, ~1 min)"""
+   /venv/bin/python -m sa.killtable            (runs every check on every seeded variant on scratch copies, ~55 min on 16 cores with 660 variants)"""
 import json, os, re, sys
 
 from .report import VERIF
@@ -16,6 +16,9 @@ def main():
         titles[name] = (meta.get('title') or '').replace('|', '/')
     m = selftest.matrix(PIDS, ('break', 'twin'))
     rows_b, rows_t = [], []
+    stats = {'breaks': 0, 'own': 0, 'sibling': [], 'exit2': [], 'silent': []}
+    if os.environ.get('SA_KILLTABLE_DUMP'):
+        json.dump({'%s %s' % k: {'exit': v.get('exit'), 'lines': v.get('lines', [])[:3]} for k, v in m.items()}, open(os.environ['SA_KILLTABLE_DUMP'], 'w'), indent=0)
     for name in sorted(kinds, key=lambda n: (re.sub(r'\d+$', '', n), int(re.search(r'(\d+)$', n).group(1)) if re.search(r'(\d+)$', n) else 0)):
         hits = [p for p in PIDS if m.get((name, p), {}).get('exit') == 1]
         inc = [p for p in PIDS if m.get((name, p), {}).get('exit') == 2]
@@ -28,11 +31,28 @@ def main():
                 if mm:
                     rule = mm.group(1)
                     break
-            rows_b.append('| %s | %s | %s | %s | %s |' % (name, titles[name][:110], rule or '-', ' '.join(hits) or '**missed**', ' '.join(inc)))
+            stats['breaks'] += 1
+            if own in hits:
+                stats['own'] += 1
+            elif hits:
+                stats['sibling'].append(name)
+            elif inc:
+                stats['exit2'].append(name)
+            else:
+                stats['silent'].append(name)
+            rows_b.append('| %s | %s | %s | %s | %s |' % (name, titles[name][:110], rule or '-',
+                                                     ' '.join(hits) or ('*none (exit 2 only)*' if inc else '**silent**'), ' '.join(inc)))
         else:
             rows_t.append((name, hits, inc))
     out = ['| variant | change | first rule of its own check | checks that exit 1 | exit 2 |', '|---|---|---|---|---|'] + rows_b
     alarmed = [(n, h, i) for n, h, i in rows_t if h or i]
+    out.append('')
+    out.append('Breaking changes: %d variants. %d are reported (exit 1, VIOLATION line) by the check of the property they were written against; '
+               '%d only by the check of a sibling property%s; %d draw no VIOLATION but an inconclusive answer (exit 2) from every check that looks at the changed code%s; '
+               '%d pass every check silently%s.' % (
+                   stats['breaks'], stats['own'], len(stats['sibling']), ' (%s)' % ', '.join(stats['sibling']) if stats['sibling'] else '',
+                   len(stats['exit2']), ' (%s)' % ', '.join(stats['exit2']) if stats['exit2'] else '',
+                   len(stats['silent']), ' (%s)' % ', '.join(stats['silent']) if stats['silent'] else ''))
     out.append('')
     false_viol = [(n, h) for n, h, i in alarmed if h]
     inconc = [(n, i) for n, h, i in alarmed if i]
@@ -50,8 +70,7 @@ def main():
         print('DESIGN.md kill table updated: %d breaks, %d twins' % (len(rows_b), len(rows_t)))
     else:
         print(text)
-    missed = [r for r in rows_b if '**missed**' in r]
-    return 1 if missed or alarmed else 0
+    return 1 if stats['silent'] or false_viol else 0
 
 
 if __name__ == '__main__':
